@@ -51,7 +51,7 @@ REQUIRED_CLASSES = {'valid-nontrivial': 1, 'rows==0': 1, 'rows>=2': 1, 'header-o
                     'corrupt:row-drop-col': 1, 'corrupt:row-add-col': 1, 'corrupt:header-rename': 1,
                     'corrupt:header-dup-replace': 1, 'corrupt:header-dup-insert': 1, 'corrupt:row-text': 1,
                     'corrupt:row-date': 1, 'corrupt:row-time': 1, 'corrupt:row-text-utim': 1, 'corrupt:last-row': 1,
-                    'corrupt:date:trailing-junk': 1, 'corrupt:time:hour-too-big': 1, 'corrupt:row-utim-overlong': 1}
+                    'corrupt:date:trailing-junk': 1, 'corrupt:time:hour-too-big': 1, 'corrupt:row-utim-overlong': 1, 'process-time-zone:JST-9': 1, 'process-time-zone:NST3:30': 1}
 EXAMPLE = 'example_data/DAT/data/example.dat'
 
 
@@ -93,6 +93,13 @@ def classify(model, cc):
 def parse_devs(model, text, cc, fobj=None):
     """The valid-file oracles.  Returns False when the text was rejected."""
     DAT_parser = _mods()
+    # the Unix time column denotes the same instant on every machine: the process time zone is varied (POSIX TZ strings, no
+    # zone database needed); the expected date/time objects are UTC as the bundled file and its DATE / TIME columns show
+    import time as _time
+    tz = ('UTC0', 'JST-9', 'NST3:30', 'XXX-12:45')[len(text) % 4]
+    os.environ['TZ'] = tz
+    _time.tzset()
+    cc.cls('process-time-zone:' + tz)
     try:
         fa = DAT_parser.parse_file(io.StringIO(text) if fobj is None else fobj)
     except DAT_parser.ExceptionDAT as err:
